@@ -140,5 +140,81 @@ contract("annotate.SpanUpdater.update",
               "nonempty": "len(self.offsets) >= 1"},
     ensures={
         # the translation of plain offsets to source offsets stays within the source
-        "in_range": "0 <= result and result <= self.len_b",
+        "in_range": "result is not None and 0 <= result and result <= self.len_b",
     })
+
+# ------------------------------------------------------------------------------------------------ html helpers (utils.py)
+wf_html = z3.Function("wf_html", z3.StringSort(), z3.BoolSort())
+
+
+@spec("wf_html")
+def _wf_html(e, st, s):
+    return SV(BOOL, wf_html(s.v))
+
+
+assumed("utils.is_balanced_html",
+    types={"text": "str"}, returns="bool", requires={"t": "text is not None"},
+    pure_result="wf_html(text)",
+    trusted_note="E-LXML: is_balanced_html(s) is an uninterpreted predicate wf(s) (lxml's parser decides it)")
+
+assumed("utils.wrap_html_tags",
+    types={"text": "str", "before": "str", "after": "str"}, returns="str",
+    requires={"args": "text is not None and before is not None and after is not None"},
+    ensures={"str": "result is not None"},
+    trusted_note="E-RE-SUB: re.sub(r'(<[^>]+>)', before+'\\\\1'+after, text) only inserts `before`/`after` around maximal tag matches (no backslash in before/after)")
+
+contract("utils.maybe_balance_style_tags",
+    types={"start": "int", "end": "int", "plain_text": "str", "tolerance": "int"}, returns="tuple[int,int,str]", prop="C09", merge_ifs=True,
+    requires={"args": "start is not None and end is not None and plain_text is not None and tolerance is not None and tolerance >= 0 "
+                      "and 0 <= start and start <= end and end <= len(plain_text)"},
+    ensures={
+        "is_slice": "result is not None and result[0] is not None and result[1] is not None and result[2] == plain_text[result[0]:result[1]]",
+        # NOTE (found while proving): `result[0] <= start` and `end <= result[1]` do NOT hold in general -- a later style tag is
+        # searched from the already moved start and may pull `end` back ('<i></em> x <em>cite</i> y', span of '<em>cite</i>'
+        # gives (0, 8)); what does hold, and what annotate_citations needs, is that the result is a well-formed slice:
+        "ordered_in_text": "0 <= result[0] and result[0] <= result[1] and result[1] <= len(plain_text)",
+    })
+
+# ------------------------------------------------------------------------------------------------ annotate_citations
+ANN_T = "seq[tuple[tuple[int,int],str,str]]"
+TARGET = "ite(truthy(old(source_text)) and old(source_text) != old(plain_text), old(source_text), old(plain_text))"
+
+contract("annotate.annotate_citations",
+    types={"plain_text": "str", "annotations": ANN_T, "source_text": "str", "unbalanced_tags": "str", "use_dmp": "bool", "annotator": "obj"},
+    returns="str", noraise=True, prop="C09", merge_ifs=True, merge_except=["If#2"],
+    requires={
+        "args": "plain_text is not None and annotations is not None and unbalanced_tags is not None and use_dmp is not None and annotator is None",
+        "mode": "unbalanced_tags in ('unchecked', 'skip', 'wrap')",
+        # documented domain: every annotation span lies inside the plain text; before/after are strings
+        "spans": "forall(lambda i: implies(0 <= i and i < len(annotations), annotations[i] is not None and annotations[i][0] is not None "
+                 "and annotations[i][0][0] is not None and annotations[i][0][1] is not None and annotations[i][1] is not None and annotations[i][2] is not None "
+                 "and 0 <= annotations[i][0][0] and annotations[i][0][0] <= annotations[i][0][1] and annotations[i][0][1] <= len(plain_text)))",
+        # excluded corner (DESIGN 6/C10): an empty plain text with a non-empty source has no diff range to translate offsets with
+        "nonempty_when_translating": "implies(truthy(source_text) and source_text != plain_text, len(plain_text) >= 1)",
+    },
+    locals_types={"out": "seq[str]", "offset_updater": "obj<SpanUpdater>"},
+    ghost={"content": "str"}, ghost_init={"c0": "ghost.content == ''"},
+    ensures={
+        # C09: the document text emitted between/inside the inserted strings is exactly the target text
+        "content_is_target": f"ghost.content == {TARGET}",
+    })
+
+loop("annotate.annotate_citations", 1,
+    invariant={
+        "last_end_range": "last_end is not None and 0 <= last_end and last_end <= len(plain_text)",
+        "out_ok": "out is not None",
+        # everything emitted so far, minus the inserted strings, is the target text up to last_end (no drop, no duplicate, no reorder)
+        "content_is_prefix": "ghost.content == plain_text[0:last_end]",
+        "sorted_spans_wf": "forall(lambda i: implies(0 <= i and i < len(annotations), annotations[i] is not None and annotations[i][0] is not None "
+                           "and annotations[i][0][0] is not None and annotations[i][0][1] is not None and annotations[i][1] is not None and annotations[i][2] is not None "
+                           "and 0 <= annotations[i][0][0] and annotations[i][0][0] <= annotations[i][0][1] and annotations[i][0][1] <= loop_entry(len(ghost.plain0))))",
+    })
+R.contracts["annotate.annotate_citations"].ghost["plain0"] = "str"
+R.contracts["annotate.annotate_citations"].ghost_init["p0"] = "ghost.plain0 == plain_text"
+# document text appended by out.extend([...]) / the trailing out.append(...)
+lemma("slice_concat3", ["t:str", "a:int", "b:int", "c:int"], "implies(0 <= a and a <= b and b <= c and c <= len(t), t[0:a] + t[a:b] + t[b:c] == t[0:c])")
+lemma("slice_concat_tail", ["t:str", "a:int"], "implies(0 <= a and a <= len(t), t[0:a] + t[a:len(t)] == t)")
+ghost_code("annotate.annotate_citations", "after:Expr#3", "use_lemma('slice_concat3', plain_text, last_end, start, end)\nghost.content = ghost.content + plain_text[last_end:start] + plain_text[start:end]")
+ghost_code("annotate.annotate_citations", "after:Expr#4", "use_lemma('slice_concat_tail', plain_text, last_end)\nghost.content = ghost.content + plain_text[last_end:len(plain_text)]")
+ghost_code("annotate.annotate_citations", "after:Assign#2", "assert len(offset_updater.offsets) >= 1 and offset_updater.len_a == len(plain_text) and offset_updater.len_b == len(source_text), 'updater_ready'")
+ghost_code("annotate.annotate_citations", "loop1:body_start", "assert implies(offset_updater is not None, len(offset_updater.offsets) >= 1 and offset_updater.len_a == len(ghost.plain0)), 'updater_ready_in_loop'")
